@@ -843,6 +843,11 @@ class CallMixin(object):
             o = Opaque("regex:" + args[0].v)
             o.re_compiled = _re.compile(args[0].v)
             return self.regex_call(st, o, dotted[3:], list(args[1:]), kwargs, node, module)
+        if dotted == "re.sub" and len(args) >= 3 and not kwargs and all(isinstance(a, Const) and isinstance(a.v, str) for a in args[:2]):
+            # re.sub(pattern, replacement, string[, count]) with constant pattern and replacement
+            o = Opaque("regex:" + args[0].v)
+            o.re_compiled = _re.compile(args[0].v)
+            return self.regex_call(st, o, "sub", [args[2], args[1]] + list(args[3:]), kwargs, node, module)
         return None
 
     def regex_call(self, st, rx, name, args, kwargs, node, module):
@@ -872,6 +877,8 @@ class CallMixin(object):
                 return TTuple(cre.split(x, *extra))
             if name == "findall":
                 return TTuple([y if isinstance(y, str) else TTuple(list(y)) for y in cre.findall(x)])
+            if name == "sub" and extra and isinstance(extra[0], str):
+                return cre.sub(extra[0], x, *extra[1:])
             raise AnalysisError("E5.regex", "regex method %s is not modelled" % name, node, module)
 
         if isinstance(s_, Const):
@@ -1041,6 +1048,18 @@ class CallMixin(object):
             return self.make_dict(st, args, kwargs, True, node, module)
         if dotted == "json.dumps":
             return Opaque("json.dumps", set().union(*[deps_of(a) for a in args if isinstance(a, Term)]) if args else ())
+        OPS = {"operator.mul": ast.Mult, "operator.add": ast.Add, "operator.sub": ast.Sub, "operator.truediv": ast.Div, "operator.floordiv": ast.FloorDiv, "operator.mod": ast.Mod, "operator.pow": ast.Pow}
+        if dotted in OPS and len(args) == 2 and not kwargs:
+            return self.binop(st, OPS[dotted](), args[0], args[1], node, module)
+        if dotted in ("operator.eq", "operator.ne", "operator.lt", "operator.le", "operator.gt", "operator.ge") and len(args) == 2 and not kwargs:
+            sym = {"eq": "==", "ne": "!=", "lt": "<", "le": "<=", "gt": ">", "ge": ">="}[dotted[9:]]
+            return self.compare_sym(st, sym, args[0], args[1], node, module, False)
+        if dotted == "operator.neg" and len(args) == 1:
+            return self.binop(st, ast.Sub(), Const(0), args[0], node, module)
+        if getattr(self, "ext_hook", None) is None and not dotted.startswith(("argparse.", "sys.", "json.")):
+            # a function of another module that is not modelled: what it returns is unknown, and a
+            # rule that meets an unknown value can neither accept nor reject it
+            raise AnalysisError("E5.ext", "call of %s is not modelled" % dotted, node, module)
         self.event("ext_call", node, module, st, dotted=dotted)
         deps = set()
         for a in args:
